@@ -28,7 +28,7 @@ RULE = ("(a) generated texts with non-ASCII header text from four repertoires (L
         "histories of length 5..40 over {read(text_i, options_j), write, header mutation, in-place curve edit, deepcopy, to_json, "
         "df, LASFile()} on a pool of 3-6 texts (incl. files lacking ~W/~P/~O, duplicates, wrapped, non-ASCII). distinct = "
         "distinct (repertoire, stored form, eol, channel) for (a) and distinct operation-kind trigrams + history digests for (b); "
-        "non-trivial = (a) a non-reference channel read, (b) a history with >= 2 reads of one key separated by >= 1 mutation")
+        "non-trivial = (a) a non-reference channel read, (b) a history with >= 2 reads of one key separated by >= 1 mutation Added later: indented titles, the constructor channel, first non-ASCII character 1..3 bytes before 1024..16384-byte boundaries, data section not last, a data row with a trailing remark.")
 ASSUMPTIONS = [
     "chardet-based detection is environment dependent and is not part of any oracle: every file is either UTF-8 with BOM or read with an explicit encoding=",
     "CR-only line ends are used for files only (text-mode universal newlines); strings are given LF or CRLF",
